@@ -48,7 +48,7 @@ def sweep(quick):
                                    'removefirst', 'removelast', 'reverse', 'clear', 'addat 0 NULL'):
                             hists.append(pre + [op] + tail + ['addlast ' + y, 'walk 0 %d' % (n + 3)])
                         for st in range(-1, n + 2):
-                            hists.append(pre + ['walk %d %d' % (st, k) for k in (0, 1, n + 2)])
+                            hists.append(pre + ['walk %d %d' % (st, k) for k in (0, 1, n + 2)] + ['walkip %d %d' % (st, n + 2), 'walkmix %d %d' % (st, n + 2)])
                         for k in range(0, n + 3):
                             hists.append(pre + ['resize %d' % k, 'toarray', 'addlast ' + x, 'getat -1', 'addfirst ' + y, 'getat 0', 'toarray',
                                                 'walk 0 %d' % (n + 3), 'reverse', 'removeat 0', 'toarray'])
@@ -121,7 +121,7 @@ def rand_history(rng, nops, big=False):
             ops.append('clear')
             n = 0
         elif k == 'walk':
-            ops.append('walk %d %d' % (rng.choice([0, 0, 0, 1, -1, n, n - 1, n + 1, rng.randrange(-2, n + 3)]), rng.choice([0, 1, 2, n, n + 2, n + 2])))
+            ops.append('%s %d %d' % (rng.choice(['walk', 'walk', 'walkip', 'walkmix']), rng.choice([0, 0, 0, 1, -1, n, n - 1, n + 1, rng.randrange(-2, n + 3)]), rng.choice([0, 1, 2, n, n + 2, n + 2])))
         else:
             ops.append(k)
     ops += ['toarray', 'walk 0 %d' % (n + 2)]
